@@ -47,6 +47,8 @@ Inductive pc :=
 | PConnect                     (* placeholder held; in _wrap_create_connection *)
 | PHeaders                     (* connection held, request sent or being sent; awaiting the response head *)
 | PBody (reading : bool)       (* _request returned; the caller is / is not awaiting resp.read() *)
+| PRecv                        (* the whole response arrived while the caller was not reading: the connection
+                                  has been released already, the body waits in the buffer for the caller *)
 | PDone                        (* response complete, connection released *)
 | PFailed (f : failure) (at_ : Z).
 
@@ -247,6 +249,9 @@ Definition awaiting (p : pc) : bool :=
 Definition connecting (p : pc) : bool :=
   match p with PWaitSlot | PResolve | PConnect => true | _ => false end.
 
+(* the caller's task has not finished yet *)
+Definition pending (p : pc) : bool := live p || match p with PRecv => true | _ => false end.
+
 (* ---- per-request effects of the stimuli ----------------------------------------------------- *)
 
 Definition start_ts (g : gcfg) (c : tcfg) (nw : Z) : tstate :=
@@ -278,6 +283,13 @@ Definition big_pause_ts (ts : tstate) : tstate :=
 
 Definition done_ts (ts : tstate) : tstate :=
   mkT (cfg ts) PDone no_timers (started ts) (sock_started ts) (last_io ts) (conn_of ts) false false None REnd.
+
+(* end of body while the caller is not reading: every timer is dropped, the response lets go of the connection;
+   a timeout latched earlier is still raised by the next read *)
+Definition recv_ts (ts : tstate) : tstate :=
+  mkT (cfg ts) PRecv no_timers (started ts) (sock_started ts) (last_io ts) None false false (latched ts) REnd.
+
+Definition ended_ts (ts : tstate) (reading : bool) : tstate := if reading then done_ts ts else recv_ts ts.
 
 (* the caller starts reading; a paused transport is resumed, which re-arms sock_read *)
 Definition read_ts (ts : tstate) (nw : Z) : tstate :=
@@ -353,14 +365,15 @@ Definition step (g : gcfg) (s : state) (e : event) : option state :=
       | KHead, PHeaders, RHead => Some (set_task s t (head_ts ts (now s)))
       | KBig, PBody true, RBody false => Some (set_task s t (big_read_ts ts (now s)))
       | KBig, PBody false, RBody false => Some (set_task s t (big_pause_ts ts))
-      | KEnd, PBody true, RBody _ =>
+      | KEnd, PBody r, RBody _ =>
           (* end of body: timers dropped; the connection goes back to the pool, unless the writer is
-             still alive (then it is cancelled and the connection is closed) *)
+             still alive (then it is cancelled and the connection is closed).  When the caller is not
+             reading (a pause and the resume inside feed_eof cancel out) the body waits in the buffer *)
           match conn_of ts with
           | Some c =>
               Some (wake g (if writer ts
-                            then give_back s t (done_ts ts) (idle s) (add_closed c (closedc s))
-                            else give_back s t (done_ts ts) (idle s ++ [c]) (closedc s)))
+                            then give_back s t (ended_ts ts r) (idle s) (add_closed c (closedc s))
+                            else give_back s t (ended_ts ts r) (idle s ++ [c]) (closedc s)))
           | None => None
           end
       | _, _, _ => None
@@ -373,10 +386,15 @@ Definition step (g : gcfg) (s : state) (e : event) : option state :=
           | Some f => Some (fail g s t f)
           | None => Some (set_task s t (read_ts ts (now s)))
           end
+      | PRecv =>
+          match latched ts with
+          | Some f => Some (fail g s t f)
+          | None => Some (set_task s t (done_ts ts))
+          end
       | _ => None
       end
   | ECancel t =>
-      if live (pcs (tasks s t)) then Some (fail g s t FCancelled) else None
+      if pending (pcs (tasks s t)) then Some (fail g s t FCancelled) else None
   | EFire t w =>
       let ts := tasks s t in
       match deadline ts w with
